@@ -75,6 +75,9 @@ class InlineDefinedFuns:
         return is_defined_fun(node)
 
     def mutations(self, node):
+        if node.is_leaf() and get_defined_fun_arity(node) != 0:
+            # the bare name of a function with arguments is not a term
+            return []
         if node.id in map(lambda n: n.id, nodes.dfs(get_defined_fun(node))):
             # we are about to inline the function into its own body
             return []
